@@ -103,7 +103,7 @@ Proof. exact (failed_flush_keeps_everything cfg s t s'). Qed.
 
 Theorem c01_log_changes_only_by_log_gc_merge cfg s t e s' o :
   step cfg s t e = Some (s', o) -> s_nflog s' <> s_nflog s ->
-  (exists i F R, In (OLog i F R t) o) \/ e = ENflogGC \/ (exists i en, e = ENflogMerge i en).
+  (exists i F R, In (OLog i F R t) o) \/ e = ENflogGC \/ (exists i en, e = ENflogMerge i en \/ e = ENflogLoad i en).
 Proof. exact (nflog_changes_only_by_log cfg s t e s' o). Qed.
 
 (* ---- non-vacuity: two integrations, one failing recoverably until the deadline, retried at the next flush ---- *)
